@@ -252,6 +252,7 @@ func (a *Activation) applyContract(con *FuncContract, fn *ssa.Function, args []V
 	if con.Trusted {
 		t.assumed["assumed contract (trusted, not verified): "+con.Full] = true
 	}
+	nAssertBefore := len(t.asserts)
 	pre := st.clone()
 	vars := map[string]Val{}
 	names := paramNames(fn, sig, len(args))
@@ -315,25 +316,43 @@ func (a *Activation) applyContract(con *FuncContract, fn *ssa.Function, args []V
 		pre = st.clone()
 		env.st, env.old, env.callBase = pre, pre, pre
 	}
-	// ghost locals of the callee's own proof (assigned by oncall / atexit clauses) are unknown to the caller
-	for _, c := range con.Clauses {
-		if c.Kind == "oncall" || c.Kind == "atexit" {
-			for _, as := range strings.Split(c.Expr, ";") {
-				if k := strings.Index(as, ":="); k >= 0 {
-					nm := strings.TrimSpace(as[:k])
-					if !strings.ContainsAny(nm, ".[") {
-						if _, have := vars[nm]; !have {
-							vars[nm] = intVal(t.fresh("ghost:"+nm, "Int"))
-						}
-					}
-				}
-			}
-		}
-	}
 	// values of opaque calls the callee will make are nameable relative to the pre-state
 	for _, c := range con.Clauses {
 		if c.Kind == "ext" || c.Kind == "oldlet" {
 			vars[c.Name] = env.evalSrc(c.Expr, c.Src)
+		}
+	}
+	// ghost locals of the callee's own proof (assigned by oncall / atexit clauses) are unknown to the caller
+	hookAssigned := map[string]bool{}
+	for _, c := range con.Clauses {
+		if c.Kind == "oncall" || c.Kind == "atexit" || c.Kind == "beforecall" || c.Kind == "onwrite" {
+			for _, as := range strings.Split(c.Expr, ";") {
+				if k := strings.Index(as, ":="); k >= 0 {
+					hookAssigned[strings.TrimSpace(as[:k])] = true
+				}
+			}
+		}
+	}
+	for _, c := range con.Clauses {
+		if c.Kind == "oncall" || c.Kind == "atexit" || c.Kind == "beforecall" {
+			for _, as := range strings.Split(c.Expr, ";") {
+				if k := strings.Index(as, ":="); k >= 0 {
+					nm := strings.TrimSpace(as[:k])
+					if !strings.ContainsAny(nm, ".[") {
+						// (also when an 'oldlet' gives the variable its initial value: what the hooks did to it during the
+						// call is not known here; keeping the initial value would make "n == 1" read "0 == 1" and turn
+						// the rest of the caller's path into a vacuous proof)
+						if old, have := vars[nm]; !have || hookAssigned[nm] {
+							nv := intVal(t.fresh("ghost:"+nm, "Int"))
+							if have && old.isScalar() {
+								nv = old
+								nv.S = t.fresh("ghost:"+nm, old.sort())
+							}
+							vars[nm] = nv
+						}
+					}
+				}
+			}
 		}
 	}
 	// frame
@@ -485,6 +504,13 @@ func (a *Activation) applyContract(con *FuncContract, fn *ssa.Function, args []V
 				}
 			}
 		}
+	}
+	{
+		a.arith["callcover"]++
+		nm := fmt.Sprintf("%s#after[%s:%d]", fullName(a.rootAct().fn), shortName(con.Full), a.arith["callcover"])
+		before := &Obligation{Name: nm + "#before", Kind: "cover", Fn: fullName(a.fn), Pc: st.pc, Goal: tFalse, NAssert: nAssertBefore, task: t, Src: con.Src}
+		after := &Obligation{Name: nm, Kind: "cover", Fn: fullName(a.fn), Pc: st.pc, Goal: tFalse, NAssert: len(t.asserts), task: t, Src: con.Src}
+		t.callCovers = append(t.callCovers, [2]*Obligation{before, after})
 	}
 	return post, res
 }
